@@ -5,6 +5,7 @@ import vlib, coqreplay
 THEOREMS = ["C20_partition_spec", "C20_sorted_spec", "C20_table_sort_perm", "C20_union_spec", "C20_deps_spec",
             "C20_cache_idempotent", "C20_step_log_delta", "C20_at_most_once", "C20_available_spec", "C20_probe_spec"]
 CHECKER = ("coqc Props/C20.v + Print Assumptions; harness cache_ops on the real SolverCache (table provider with call log, "
+           "overlapping batches of queries against a yielding provider -> `overlap_run <universe> ops calls = (answers, true)`, "
            "availability probes from inside sort_candidates) -> per-sequence Coq Example `crun <universe> ops = observed "
            "(answer, provider calls, probes) per query`, and per solve `log_check <universe> log = (observed probes, true)`, "
            "closed by vm_compute; reflexivity")
@@ -72,12 +73,17 @@ def coq_out(o):
 
 
 def model_term(c):
+    if c["mode"] == "overlap":
+        return (f"overlap_run {vlib.coq_universe(c['u'])}\n  [" + "; ".join(coq_op(o) for o in c["ops"]) + "]\n  [" +
+                "; ".join(coq_call(x) for x in c["calls"]) + "]")
     if c["mode"] == "solve":
         return f"log_check {vlib.coq_universe(c['u'])}\n  [" + "; ".join(coq_call(x) for x in c["log"]) + "]"
     return f"crun {vlib.coq_universe(c['u'])}\n  [" + "; ".join(coq_op(o) for o in c["ops"]) + "]"
 
 
 def stmt(c):
+    if c["mode"] == "overlap":
+        return model_term(c) + "\n  = ([" + ";\n     ".join(coq_ans(a) for a in c["answers"]) + "], true)"
     if c["mode"] == "solve":
         return model_term(c) + f"\n  = ({coq_probes(c['probes'])}, true)"
     return model_term(c) + "\n  = [" + ";\n     ".join(coq_out(o) for o in c["outs"]) + "]"
@@ -85,6 +91,8 @@ def stmt(c):
 
 def unrepresentable(c):
     """the non-cancelling, non-yielding provider can make no query fail or stay pending"""
+    if c["mode"] == "overlap":
+        return c["answers"] is None or any(a[0] in ("err", "pending") for a in c["answers"])
     if c["mode"] == "solve":
         return c["outcome"] in ("panic", "cancelled")
     return any(o["ans"][0] in ("err", "pending") for o in c["outs"])
@@ -121,7 +129,7 @@ def run(res, tier, seed, replay):
         return "ops-" + hashlib.sha1(json.dumps([c["u"], c.get("ops"), c.get("p")], sort_keys=True).encode()).hexdigest()[:10]
 
     examples, idx = [], []
-    kinds, n_fav, n_union, n_hints, n_rep, n_solve, n_probes, n_fav_sorted = {}, 0, 0, 0, 0, 0, 0, 0
+    kinds, n_fav, n_union, n_hints, n_rep, n_solve, n_probes, n_fav_sorted, n_overlap = {}, 0, 0, 0, 0, 0, 0, 0, 0
     for i, c in enumerate(cases):
         if unrepresentable(c):
             res.obligations += 1
@@ -132,6 +140,12 @@ def run(res, tier, seed, replay):
         examples.append((f"case_{i}", stmt(c)))
         idx.append(i)
         fav, hints = features(c)
+        if c["mode"] == "overlap":
+            n_overlap += 1
+            ks = [json.dumps(o) for o in c["ops"]]
+            res.count([c["u"], c["ops"], "overlap"], len(set(ks)) < len(ks))
+            res.sample({"mode": "overlap", "ops": c["ops"][:8], "calls": c["calls"][:12]}, limit=2)
+            continue
         if c["mode"] == "solve":
             n_solve += 1
             n_probes += len(c["probes"])
@@ -167,7 +181,10 @@ def run(res, tier, seed, replay):
     for name, msg in failed:
         c = cases[int(name.split("_")[1])]
         model = coqreplay.coq_eval("C20", HEADER, model_term(c))
-        what = ("provider call log / sort_candidates probes of a solve contradict the cache model (availability determined by "
+        what = ("queries that overlap in time (provider yields in get_candidates / get_dependencies) were not answered as when "
+                "issued one after the other, or consulted the provider more often: a provider call was repeated for a key that "
+                "was already being answered" if c["mode"] == "overlap" else
+                "provider call log / sort_candidates probes of a solve contradict the cache model (availability determined by "
                 "earlier calls; each call at most once)" if c["mode"] == "solve" else
                 f"real SolverCache disagrees with the model (proven equal to Spec.matching / sorted_cands / req_cands, "
                 f"idempotent, at-most-once) on a sequence of {len(c['ops'])} queries")
@@ -175,12 +192,15 @@ def run(res, tier, seed, replay):
     res.rule = ("seeded SMALL universes (favored, hints none/all/some, unions, unknown deps, missing packages); 4 of 5 ids: "
                 "random sequences of get_or_cache_{candidates,matching,non_matching,sorted(single|union),dependencies} and "
                 "are_dependencies_available_for with one query in four repeated, closing with the availability of every "
+                "solvable (ids with remainder 3: a batch of 2-11 queries, half of them repeats, started together against a provider "
+                "that yields, so that queries for one key overlap: answers as in the sequential model, provider calls a permutation "
+                "of the model's); the other ids: closing with the availability of every "
                 "solvable, probes from inside sort_candidates always on; every fifth id: a full solve with probes; "
                 "non-trivial = sequence with a repeated query, hints, and a sorted query on a union or on a version set "
                 "matching the favored candidate (solve: >=2 probes, one of them true)")
     res.extra.update({"op_histogram": kinds, "in_coq_examples": len(examples), "in_coq_accepted": n_ok,
                       "sequences_with_favored_sorted": n_fav, "sequences_with_union": n_union,
-                      "sequences_with_hints": n_hints, "repeated_queries": n_rep, "solve_cases": n_solve,
+                      "sequences_with_hints": n_hints, "repeated_queries": n_rep, "solve_cases": n_solve, "overlapping_query_batches": n_overlap,
                       "probes_compared": n_probes})
     return res.finish(CHECKER, vlib.TRUSTED_BASE,
                       ["Call::Poll and CandsEnd/DepsEnd markers are filtered out of the observed call slices (the model logs "
